@@ -1,7 +1,8 @@
 (* C02 - directed incidence integrity (tail/head vs out/in) under every history. *)
 From Coq Require Import String ZArith List Bool.
 From XV Require Import Base.Label Base.LSet Base.ODict Base.Attr Base.Outcome Model.Hypergraph
-  Model.HgCheck Model.DiHypergraph Model.DiCheck Proofs.HgViews Proofs.HgInv Proofs.DiInv.
+  Model.HgCheck Model.DiHypergraph Model.DiCheck Model.PyIR Model.PyIRD Gen.DiMutators Proofs.HgViews Proofs.HgInv Proofs.DiInv
+  Proofs.DiMutatorSource Proofs.SourceInvDi.
 Import ListNotations.
 
 Theorem C02_init_wf : DInv dhg_empty.
@@ -34,6 +35,49 @@ Theorem C02_reports : forall d, DInv d ->
   NoDup (keys (h_nattr (ts d))) /\ NoDup (keys (h_eattr (ts d))).
 Proof. exact DInv_reports. Qed.
 Print Assumptions C02_reports.
+
+(* THE SOURCE TIE for seven core mutators of DiHypergraph.  Gen/DiMutators.v holds the bodies of add_node, add_node_to_edge,
+   remove_edge, remove_edges_from, remove_node_from_edge, clear and add_edge as programs of a small imperative language,
+   regenerated from xgi/core/dihypergraph.py on every run (harness/translate_dimutators.py, fail-closed).  Model/PyIRD.v gives
+   their meaning on the two-sided model state: self._node[n]["out"] / self._edge[e]["in"] live on the tail side,
+   self._node[n]["in"] / self._edge[e]["out"] on the head side, a key test reads the tail side, creating or deleting a key acts on
+   both, lookups of missing keys raise IDNotFound, None keys raise XGIError, set.remove of a missing element raises KeyError, the
+   `direction` prologue binds the two side names or raises XGIError, `edge = self._edge[k].copy()` is a snapshot, guards raise or
+   warn-and-return.  Running them gives exactly the model's state, outcome and warning count on every state satisfying the class
+   invariant (for clear: whenever the head side carries no network attributes; for add_edge: whenever None is not an edge id) *)
+Theorem C02_core_mutators_are_source :
+  (forall n a d, DInv d -> run_dmethod dsrc_add_node [n] [] DirInvalid a [] d = d_add_node n a d) /\
+  (forall e n dir d, DInv d -> run_dmethod dsrc_add_node_to_edge [e; n] [] dir [] [] d = d_add_node_to_edge e n dir d) /\
+  (forall e d, DInv d -> run_dmethod dsrc_remove_edge [e] [] DirInvalid [] [] d = d_remove_edge e d) /\
+  (forall es d, DInv d -> run_dmethod dsrc_remove_edges_from [] [] DirInvalid [] es d = d_remove_edges_from es d) /\
+  (forall e n dir re d, DInv d -> run_dmethod dsrc_remove_node_from_edge [e; n] [re] dir [] [] d = d_remove_node_from_edge e n dir re d) /\
+  (forall b d, h_net (hs d) = [] -> run_dmethod dsrc_clear [] [b] DirInvalid [] [] d = d_clear b d) /\
+  (forall tl hd idx a d, DInv d -> idx <> Some LNone -> has LNone (h_edge (ts d)) = false ->
+     run_dmethod_e dsrc_add_edge_guards1 dsrc_add_edge_guards2 dsrc_add_edge tl hd idx a d = d_add_edge tl hd idx a d).
+Proof.
+  split; [exact d_add_node_is_source|]. split; [exact d_add_node_to_edge_is_source|]. split; [exact d_remove_edge_is_source|].
+  split; [exact d_remove_edges_from_is_source|]. split; [exact d_remove_node_from_edge_is_source|].
+  split; [exact d_clear_is_source|exact d_add_edge_is_source].
+Qed.
+Print Assumptions C02_core_mutators_are_source.
+
+(* ... and therefore the two-sided invariant holds of the regenerated programs themselves *)
+Theorem C02_source_programs_keep_DInv : forall d, DInv d -> h_net (hs d) = [] -> has LNone (h_edge (ts d)) = false ->
+  (forall n a, DInv (dst_of (run_dmethod dsrc_add_node [n] [] DirInvalid a [] d))) /\
+  (forall e n dir, DInv (dst_of (run_dmethod dsrc_add_node_to_edge [e; n] [] dir [] [] d))) /\
+  (forall e, DInv (dst_of (run_dmethod dsrc_remove_edge [e] [] DirInvalid [] [] d))) /\
+  (forall es, DInv (dst_of (run_dmethod dsrc_remove_edges_from [] [] DirInvalid [] es d))) /\
+  (forall e n dir re, DInv (dst_of (run_dmethod dsrc_remove_node_from_edge [e; n] [re] dir [] [] d))) /\
+  (forall b, DInv (dst_of (run_dmethod dsrc_clear [] [b] DirInvalid [] [] d))) /\
+  (forall tl hd idx a, idx <> Some LNone ->
+     DInv (dst_of (run_dmethod_e dsrc_add_edge_guards1 dsrc_add_edge_guards2 dsrc_add_edge tl hd idx a d))).
+Proof. exact di_source_programs_keep_DInv. Qed.
+Print Assumptions C02_source_programs_keep_DInv.
+
+(* the premises are met by the empty network (and DInv is kept by every history: C02_history_wf) *)
+Example C02_source_premises_met : DInv dhg_empty /\ h_net (hs dhg_empty) = [] /\ has LNone (h_edge (ts dhg_empty)) = false.
+Proof. split; [exact DInv_empty|split; reflexivity]. Qed.
+Print Assumptions C02_source_premises_met.
 
 (* non-vacuity: a node in both head and tail of one edge, then a strong removal *)
 Definition c02_example_ops : list dop :=
